@@ -36,19 +36,25 @@ def options(rng):
 def build_anonymizer(nc, opts, feats, undo=False):
     """FileAnonymizer for a feature subset with the case's option values (fresh option lists)."""
     ip = "ip" in feats
-    return nc.af.FileAnonymizer(
-        anon_pwd="pwd" in feats,
-        anon_ip=ip and not undo,
-        salt=opts["salt"],
-        sensitive_words=list(opts["words"]) if "words" in feats else None,
-        undo_ip_anon=ip and undo,
-        as_numbers=list(opts["asns"]) if "asn" in feats else None,
-        reserved_words=list(opts["reserved"]) if opts.get("reserved") else None,
-        preserve_prefixes=None if opts.get("pp") is None else list(opts["pp"]),
-        preserve_networks=None if opts.get("pa") is None else list(opts["pa"]),
-        preserve_suffix_v4=opts.get("B4"),
-        preserve_suffix_v6=opts.get("B6"),
-    )
+    kw = {}
+    # arguments that are None are omitted (as library users do), so the callee's own defaults are exercised
+    if "words" in feats:
+        kw["sensitive_words"] = list(opts["words"])
+    if "asn" in feats:
+        kw["as_numbers"] = list(opts["asns"])
+    if opts.get("reserved"):
+        kw["reserved_words"] = list(opts["reserved"])
+    if opts.get("pp") is not None:
+        kw["preserve_prefixes"] = list(opts["pp"])
+    if opts.get("pa") is not None:
+        kw["preserve_networks"] = list(opts["pa"])
+    if opts.get("B4") is not None:
+        kw["preserve_suffix_v4"] = opts["B4"]
+    if opts.get("B6") is not None:
+        kw["preserve_suffix_v6"] = opts["B6"]
+    if ip and undo:
+        kw["undo_ip_anon"] = True
+    return nc.af.FileAnonymizer("pwd" in feats, ip and not undo, opts["salt"], **kw)
 
 
 def _benign_ok(tok, opts):
@@ -86,7 +92,7 @@ def gen_plain_line(rng, opts):
     if not toks:
         toks = [["exit", "benign"]]
     seps = [rng.choice([" ", " ", " ", "  ", "\t", " \t "]) for _ in toks]
-    return {"kind": "plain", "lead": rng.choice(["", "", " ", "  ", "\t", "    ", "\x0c"]),
+    return {"kind": "plain", "lead": rng.choice(["", "", " ", "  ", "\t", "    ", "\x0c", " \t ", "\x0b", "\x1c "]),
             "trail": rng.choice(["", "", " ", "\t", "  "]), "toks": toks, "seps": seps}
 
 
